@@ -1,7 +1,7 @@
 (* Executable model of pyoak/origin.py: code points, ranges, sources, origins, + / merge / concat, fqn.
    Definitions only (plus Examples); proofs live in Proofs/OriginProofs.v. *)
 From Oak Require Export Base.PyStr.
-Open Scope Z_scope.
+Local Open Scope Z_scope.
 
 (* ---------- CodePoint (origin.py:493-537) ---------- *)
 Record point := { p_idx : Z; p_line : Z; p_col : Z }.
